@@ -175,6 +175,10 @@ class QueryPlanner:
                 return SubSelectStep(select, self.cte_results[table_name], table_name=name)
 
         fetch_df_select = copy.deepcopy(select)
+        if fetch_df_select.cte is not None and all(cte.name.parts[-1] in self.cte_results for cte in fetch_df_select.cte):
+            # the common table expressions were planned as steps of their own (references to them read those results):
+            #   their text must not travel with the fetch, it may name tables of other integrations
+            fetch_df_select.cte = None
         self.prepare_integration_select(integration_name, fetch_df_select)
 
         # remove predictor params
